@@ -113,6 +113,14 @@ def LazyEncoderSelected(payload):
 
 
 @trigger
+def ChoiceConstraintForcesMember(payload):
+    """A choice constraint (linked / permutation / ordering) over selection choices: once the other members are
+    taken, a member can be left with a single option and is then resolved automatically."""
+    g = _g(payload)
+    return any(len(c.get('m') or []) >= 2 for c in g.get('cons', []))
+
+
+@trigger
 def HasConnectionChoice(payload):
     return bool(_g(payload).get('cc'))
 
